@@ -55,11 +55,12 @@ func tzFile(dir string, offMin int) string {
 }
 
 type ExecResult struct {
-	Res    string // ok | refused | crash | hang
-	Exit   int
-	Stdout []byte
-	Stderr []byte
-	T0, T1 int64
+	Res      string // ok | refused | crash | hang
+	Exit     int
+	Stdout   []byte
+	Stderr   []byte
+	T0, T1   int64
+	MaxRSSKB int64
 }
 
 func (r *Runner) env() []string {
@@ -93,6 +94,11 @@ func (r *Runner) RunArgv(argv []string, extraEnv []string) ExecResult {
 	err := cmd.Run()
 	t1 := time.Now().Unix()
 	res := ExecResult{Stdout: so.Bytes(), Stderr: se.Bytes(), T0: t0, T1: t1}
+	if cmd.ProcessState != nil {
+		if ru, ok := cmd.ProcessState.SysUsage().(*syscall.Rusage); ok {
+			res.MaxRSSKB = ru.Maxrss
+		}
+	}
 	if ctx.Err() == context.DeadlineExceeded {
 		res.Res = "hang"
 		res.Exit = -1
